@@ -919,7 +919,7 @@ PROPS = {
     },
     "C08": {
         "property_modules": ["Zlink.Properties.C08"], "lean_modules": ["Zlink.Properties.C08"],
-        "theorems": ["C08.C08_refinement", "C08.C08_quiescent", "C08.C08_model_satisfies_oracle", "C08.C08_no_lost_wakeup", "C08.C08_wake_driven", "C08.C08_parked_all_answered", "C08.C08_oneway_silent", "C08.C08_one_reply", "C08.C08_in_order"],
+        "theorems": ["C08.C08_refinement", "C08.C08_quiescent", "C08.C08_model_satisfies_oracle", "C08.C08_no_lost_wakeup", "C08.C08_wake_driven", "C08.C08_parked_all_answered", "C08.C08_poll_splits", "C08.C08_oneway_silent", "C08.C08_one_reply", "C08.C08_in_order"],
         "run": run_srv_scenarios(["srv"]), "trusted_base": TB_COMMON, "assumptions": SRV_ASSUME,
     },
     "C09": {
